@@ -10,6 +10,7 @@ import (
 	"encoding/json"
 	"fmt"
 	"hash/fnv"
+	"io"
 	"io/ioutil"
 	"math/rand"
 	"os"
@@ -70,6 +71,10 @@ func c20Inputs() ([][]byte, error) {
 	if err != nil {
 		return nil, err
 	}
+	prog8, err := ioutil.ReadFile(filepath.Join("/repo/mp4/testdata", "prog_8s.mp4"))
+	if err != nil {
+		return nil, err
+	}
 	inputs := [][]byte{clear, eb.Bytes(), prog}
 	// the kitchen sinks are expensive to build: the solo processes reuse what the first builder stored next to the instances
 	cache := ""
@@ -77,7 +82,7 @@ func c20Inputs() ([][]byte, error) {
 		cache = c20InstancePath + ".inputs.json"
 		if b, err := ioutil.ReadFile(cache); err == nil {
 			var all [][]byte
-			if json.Unmarshal(b, &all) == nil && len(all) >= 5 {
+			if json.Unmarshal(b, &all) == nil && len(all) >= 7 {
 				return all, nil
 			}
 		}
@@ -92,7 +97,8 @@ func c20Inputs() ([][]byte, error) {
 	// last input: key material as an application keeps it - an 8-byte IV directly followed by the 16-byte key and 8 more
 	// bytes in ONE buffer; op K passes buf[:8] (a slice with spare capacity) and buf[8:24] to the library
 	ivkey := append(append(append([]byte{}, ivClasses[5][:8]...), c20Key1...), 1, 2, 3, 4, 5, 6, 7, 8)
-	inputs = append(inputs, ivkey)
+	// last but one: a progressive file with media data, for the lazy decode (op L) and CopySampleData (op P)
+	inputs = append(inputs, prog8, ivkey)
 	if cache != "" {
 		if b, err := json.Marshal(inputs); err == nil {
 			_ = ioutil.WriteFile(cache+".tmp", b, 0o644)
@@ -247,10 +253,27 @@ func c20Op(st *c20State, op string, inputs [][]byte) (res int) {
 		st.f = f
 		return dig([]byte(fmt.Sprint(err))) ^ fileDigest(f)
 	}
+	if op == "L" { // lazy decode of the progressive file: the mdat payload stays in the source
+		f, err := mp4.DecodeFile(bytes.NewReader(inputs[len(inputs)-2]), mp4.WithDecodeMode(mp4.DecModeLazyMdat))
+		st.f = f
+		return dig([]byte(fmt.Sprint(err))) ^ fileDigest(f)
+	}
 	if st.f == nil {
 		return -1
 	}
 	switch op {
+	case "P": // copy the first samples of the first track out of the source into a writer that is a plain io.Writer
+		if st.f.Moov == nil || st.f.Moov.Trak == nil {
+			return -2
+		}
+		trak := st.f.Moov.Trak
+		n := trak.Mdia.Minf.Stbl.Stsz.SampleNumber
+		if n > 60 {
+			n = 60
+		}
+		h := fnv.New64a()
+		err := st.f.CopySampleData(struct{ io.Writer }{h}, bytes.NewReader(inputs[len(inputs)-2]), trak, 1, n, nil)
+		return dig(h.Sum(nil)) ^ dig([]byte(fmt.Sprint(err)))
 	case "I":
 		var b bytes.Buffer
 		err := st.f.Info(&b, "all:1", "", "  ")
@@ -510,10 +533,16 @@ func c20Race(args []string) error {
 			shared[i] = append([]byte{}, b...)
 		}
 		g := 2 + rng.Intn(3)
+		if r < len(progs) {
+			g = 2 // first every program against itself: two goroutines on the same code path, each with its own objects
+		}
 		sel := make([][]string, g)
 		want := make([][]int, g)
 		for i := range sel {
 			sel[i] = progs[rng.Intn(len(progs))]
+			if r < len(progs) {
+				sel[i] = progs[r]
+			}
 			key := strings.Join(sel[i], " ")
 			if _, ok := soloCache[key]; !ok {
 				w, err := c20SoloFresh(sel[i]) // in a process of its own: pristine package-level state
@@ -527,6 +556,24 @@ func c20Race(args []string) error {
 		var wg sync.WaitGroup
 		var mu sync.Mutex
 		start := make(chan struct{})
+		// lockstep (the self-pairs and every second run): a barrier before each call, so that the k-th calls of all
+		// goroutines really overlap - without it a goroutine often finishes before the next one starts, and the
+		// sync.Pool inside fmt then orders their memory accesses for the race detector
+		lockstep := r < len(progs) || r%2 == 0
+		maxLen := 0
+		for i := range sel {
+			if len(sel[i]) > maxLen {
+				maxLen = len(sel[i])
+			}
+		}
+		barriers := make([]sync.WaitGroup, maxLen)
+		for k := range barriers {
+			for i := range sel {
+				if k < len(sel[i]) {
+					barriers[k].Add(1)
+				}
+			}
+		}
 		for i := range sel {
 			wg.Add(1)
 			go func(i int) {
@@ -534,6 +581,10 @@ func c20Race(args []string) error {
 				<-start
 				st := &c20State{}
 				for k, op := range sel[i] {
+					if lockstep {
+						barriers[k].Done()
+						barriers[k].Wait()
+					}
 					if got := c20Op(st, op, shared); got != want[i][k] {
 						mu.Lock()
 						mismatches++
